@@ -13,7 +13,7 @@ from .c16 import SOILS15
 
 PID = "C18"
 LEVEL = "model_checking"
-WITNESSES = ["deepened_profile", "not_deepened", "layered_soil", "texture_soil", "depth_interpolation", "thick_compartments_only", "non_uniform_thickness", "soil_object_reused"]
+WITNESSES = ["deepened_profile", "not_deepened", "layered_soil", "texture_soil", "depth_interpolation", "thick_compartments_only", "non_uniform_thickness", "soil_object_reused", "independent_layer_map"]
 NONTRIVIAL = ["deepened_profile", "layered_soil", "texture_soil", "depth_interpolation", "thick_compartments_only", "non_uniform_thickness", "soil_object_reused"]
 
 ZMAX = [0.5, 0.6, 1.0, 1.3, 1.5, 1.7, 1.8, 2.0, 2.3, 3.0]
@@ -22,7 +22,41 @@ CUSTOM = {
     "c1": {"type": "custom", "layers": [[4.0, 0.10, 0.25, 0.45, 800.0, 100]]},
     "c2": {"type": "custom", "layers": [[0.4, 0.12, 0.26, 0.43, 600.0, 100], [3.6, 0.30, 0.44, 0.50, 4.0, 60]]},
     "c3": A.CUSTOM3,
+    # thin lower layers: the third layer is thinner than the depth reached by the layers above it
+    "c3b": {"type": "custom", "layers": [[0.5, 0.12, 0.26, 0.43, 600.0, 100], [0.4, 0.30, 0.44, 0.50, 4.0, 100], [0.3, 0.06, 0.13, 0.36, 3000.0, 100]]},
+    "c3c": {"type": "custom", "layers": [[0.4, 0.20, 0.35, 0.47, 120.0, 100], [0.4, 0.10, 0.22, 0.41, 1200.0, 80], [0.4, 0.32, 0.50, 0.54, 15.0, 100]]},
+    "c3d": {"type": "custom", "layers": [[0.6, 0.15, 0.31, 0.46, 300.0, 100], [0.4, 0.39, 0.54, 0.55, 35.0, 100], [0.2, 0.12, 0.26, 0.43, 600.0, 100]]},
+    "c2t": {"type": "custom", "texture": [[0.7, 30, 30, 2.0, 100], [0.3, 60, 10, 1.0, 100]]},
 }
+BUILTIN_LAYERS = {"Paddy": [0.5, 1.5], "ac_TunisLocal": [0.3, 1.7]}
+
+
+def layer_thicknesses(ss):
+    """Layer thicknesses as the user gave them (independent of Soil.add_layer)."""
+    if ss.get("layers"):
+        return [float(l[0]) for l in ss["layers"]]
+    if ss.get("texture"):
+        return [float(l[0]) for l in ss["texture"]]
+    return BUILTIN_LAYERS.get(ss["type"])
+
+
+def reference_layer_map(bottoms, thick):
+    """Layers are stacked from the surface: a compartment belongs to the first layer that still contains its bottom, each layer
+    being measured from the bottom of the last compartment of the layer above; compartments below all layers take the last layer."""
+    lay = np.zeros(len(bottoms), dtype=int)
+    last = 0.0
+    for k, t in enumerate(thick, start=1):
+        idx = [i for i in range(len(bottoms)) if lay[i] == 0 and round(bottoms[i], 2) <= round(last + t, 2) + 1e-9]
+        for i in idx:
+            lay[i] = k
+        if idx:
+            last = bottoms[idx[-1]]
+    cur = 0
+    for i in range(len(lay)):
+        if lay[i] == 0:
+            lay[i] = cur
+        cur = lay[i]
+    return lay
 IWCS = ["PropLayer", "PctLayer", "NumLayer", "PropDepth", "PctDepth", "NumDepth"]
 
 
@@ -118,6 +152,12 @@ def run(scn):
     for _, r in ref_df.iterrows():
         props.setdefault(int(r.Layer), {k: float(r[k]) for k in ("th_dry", "th_wp", "th_fc", "th_s", "Ksat", "penetrability", "tau")})
     res["evals"] = 1
+    thick = layer_thicknesses(ss)
+    ind_lay = reference_layer_map(np.cumsum(np.round(orig_dz, 2)), thick) if thick else None
+    if ind_lay is not None and set(range(1, nl + 1)) - set(int(x) for x in ind_lay):
+        # premise: a layer thinner than the compartments at its depth holds no compartment at all - not a soil the model can represent
+        res["notes"].append("premise-layer-without-compartment")
+        return res
     try:
         with watchdog(40):
             if scn.get("first_zmax") is not None:
@@ -190,6 +230,19 @@ def run(scn):
     ref_lay = np.asarray(ref_df.Layer.values, dtype=int)
     if len(ref_lay) == len(lay) and (ref_lay != lay).any():
         bad("compartment-keeps-its-layer", lay.tolist(), ref_lay.tolist())
+    if ind_lay is not None and len(orig_dz) == len(lay):
+        hit("independent_layer_map")
+        if (ind_lay != lay).any():
+            bad("layers-as-specified", lay.tolist(), ind_lay.tolist())
+        if ss.get("layers"):
+            for i in range(n):
+                L = ss["layers"][int(lay[i]) - 1] if 1 <= lay[i] <= len(ss["layers"]) else None
+                if L is None:
+                    continue
+                got = [float(np.asarray(getattr(prof, a))[i]) for a in ("th_wp", "th_fc", "th_s", "Ksat", "Penetrability")]
+                if any(abs(g - float(e)) > 1e-12 for g, e in zip(got, L[1:6])):
+                    bad("compartment-carries-its-layer-properties", {"comp": i, "layer": int(lay[i]), "value": got}, {"expected": [float(x) for x in L[1:6]]})
+                    break
     names = {"th_dry": "th_dry", "th_wp": "th_wp", "th_fc": "th_fc", "th_s": "th_s", "Ksat": "Ksat", "penetrability": "Penetrability", "tau": "tau"}
     for i in range(n):
         p = props.get(int(lay[i]))
